@@ -19,6 +19,7 @@ import (
 	"os"
 	"os/exec"
 	"path/filepath"
+	"runtime"
 	"sort"
 	"strconv"
 	"strings"
@@ -82,11 +83,11 @@ var c12Contexts = []string{
 }
 
 type c12Family struct {
-	name    string
-	n       int                // number of cases
-	gen     func(i int) string // index -> input
-	handler func(i int) bool   // also compared through the REST / gRPC handlers
-	distinct bool              // inputs of this family are pairwise distinct and distinct from the other "distinct" families
+	name     string
+	n        int                // number of cases
+	gen      func(i int) string // index -> input
+	handler  func(i int) bool   // also compared through the REST / gRPC handlers
+	distinct bool               // inputs of this family are pairwise distinct and distinct from the other "distinct" families
 }
 
 func digits(i, base, n int, out []int) {
@@ -351,7 +352,9 @@ func geoFamilies() []geoFamily {
 		{"nested-subjectset", func(n int) string {
 			return "class A implements Namespace { related: { r: " + rep("SubjectSet<", n) + "A" + rep(", \"r\">", n) + "[] } }"
 		}},
-		{"wide-union", func(n int) string { return "class A implements Namespace { related: { r: (A" + rep(" | A", n) + ")[] } }" }},
+		{"wide-union", func(n int) string {
+			return "class A implements Namespace { related: { r: (A" + rep(" | A", n) + ")[] } }"
+		}},
 		{"long-block-comment", func(n int) string { return "/*" + rep("x", n) + "*/ class A implements Namespace {}" }},
 		{"long-unclosed-comment", func(n int) string { return "class A implements Namespace {} /*" + rep("x\n", n/2) }},
 		{"long-line-comment", func(n int) string { return "//" + rep("x", n) + "\nclass A implements Namespace {}" }},
@@ -360,7 +363,9 @@ func geoFamilies() []geoFamily {
 		{"long-unclosed-string", func(n int) string { return "class \"" + rep("x", n) }},
 		{"long-identifier", func(n int) string { return "class " + rep("x", n) + " implements Namespace {}" }},
 		{"white-space", func(n int) string { return rep(" \n\t", n) + "class A implements Namespace {}" + rep("\n", n) }},
-		{"semicolons", func(n int) string { return "class A implements Namespace { " + rep(";", n) + " related: { " + rep(";", n) + " } }" }},
+		{"semicolons", func(n int) string {
+			return "class A implements Namespace { " + rep(";", n) + " related: { " + rep(";", n) + " } }"
+		}},
 		{"ignored-top-level-tokens", func(n int) string { return rep("( x ! ", n) + "class A implements Namespace {}" }},
 		{"non-ascii", func(n int) string { return "class A implements Namespace {} // " + rep("é", n) + "\n\xff" }},
 		{"n-empty-classes", func(n int) string {
@@ -376,7 +381,9 @@ func geoFamilies() []geoFamily {
 		}},
 		{"n-permissions-each-referencing-a-relation", func(n int) string {
 			return "class A implements Namespace { related: {\n" + many(n, func(i int) string { return fmt.Sprintf(" r%d: A[]\n", i) }) + "}\n permits = {\n" +
-				many(n, func(i int) string { return fmt.Sprintf(" p%d: (ctx) => this.related.r%d.includes(ctx.subject),\n", i, i) }) + "} }"
+				many(n, func(i int) string {
+					return fmt.Sprintf(" p%d: (ctx) => this.related.r%d.includes(ctx.subject),\n", i, i)
+				}) + "} }"
 		}},
 		{"n-type-errors", func(n int) string {
 			return "class A implements Namespace { related: {\n" + many(n, func(i int) string { return fmt.Sprintf(" r%d: Z%d[]\n", i, i) }) + "} }"
@@ -410,22 +417,22 @@ type c12Vio struct {
 }
 
 type c12Report struct {
-	Shard        int                 `json:"shard"`
-	Evals        map[string]int64    `json:"evals"`
-	Nontrivial   int64               `json:"nontrivial"`
-	DistinctNT   int64               `json:"distinct_nontrivial"`
-	Handler      int64               `json:"handler"`
-	Vios         map[string]*c12Vio  `json:"vios"`
-	MaxPerByte   float64             `json:"max_ticks_per_byte"`
-	MaxPerByteIn string              `json:"max_ticks_per_byte_input"`
-	MaxSmall     int64               `json:"max_ticks_small"`
-	MaxUtil      float64             `json:"max_bound_utilisation"`
-	MaxUtilIn    string              `json:"max_bound_utilisation_input"`
-	Cut          bool                `json:"cut"`
-	Frontier     map[string]int      `json:"frontier,omitempty"`
-	Ticks        int64               `json:"ticks"`
-	Errors       int64               `json:"errors_checked"`
-	Accepted     int64               `json:"accepted"`
+	Shard        int                `json:"shard"`
+	Evals        map[string]int64   `json:"evals"`
+	Nontrivial   int64              `json:"nontrivial"`
+	DistinctNT   int64              `json:"distinct_nontrivial"`
+	Handler      int64              `json:"handler"`
+	Vios         map[string]*c12Vio `json:"vios"`
+	MaxPerByte   float64            `json:"max_ticks_per_byte"`
+	MaxPerByteIn string             `json:"max_ticks_per_byte_input"`
+	MaxSmall     int64              `json:"max_ticks_small"`
+	MaxUtil      float64            `json:"max_bound_utilisation"`
+	MaxUtilIn    string             `json:"max_bound_utilisation_input"`
+	Cut          bool               `json:"cut"`
+	Frontier     map[string]int     `json:"frontier,omitempty"`
+	Ticks        int64              `json:"ticks"`
+	Errors       int64              `json:"errors_checked"`
+	Accepted     int64              `json:"accepted"`
 }
 
 func (r *c12Report) vio(sig, what, family string, index int, input string) {
@@ -669,6 +676,27 @@ func (rep *c12Report) judge(hs *handlers, family string, index int, s string, vi
 	return o
 }
 
+// parseGoroutineBlocked returns the wait state ("chan send", "select", ...) of the goroutine that
+// is inside schema.Parse if it is parked, else "".
+func parseGoroutineBlocked() string {
+	buf := make([]byte, 4<<20)
+	n := runtime.Stack(buf, true)
+	for _, g := range strings.Split(string(buf[:n]), "\n\n") {
+		if !strings.Contains(g, "internal/schema.Parse(") && !strings.Contains(g, "internal/schema.(*parser).parse(") {
+			continue
+		}
+		head := g[:strings.IndexByte(g+"\n", '\n')]
+		for _, st := range []string{"chan send", "chan receive", "select", "semacquire", "sync.Mutex.Lock", "sync.Cond.Wait", "sync.WaitGroup.Wait"} {
+			if strings.Contains(head, "["+st) {
+				return st
+			}
+		}
+	}
+	return ""
+}
+
+var onBlocked = func(where, input, state string) {}
+
 func startWatchdog(onCap func(where, input string, ticks int64)) {
 	go func() {
 		var lastTicks int64 = -1
@@ -689,6 +717,11 @@ func startWatchdog(onCap func(where, input string, ticks int64)) {
 			}
 			if now != lastTicks {
 				lastTicks, stuckSince = now, time.Now()
+			} else if time.Since(stuckSince) > 20*time.Second && parseGoroutineBlocked() != "" {
+				// Parse is sequential and its lexer channel is private to the call: a goroutine that is
+				// inside schema.Parse, has executed no instrumented step for 20 s and is parked on a
+				// channel / lock can never be woken - the parse does not terminate
+				onBlocked(w, in, parseGoroutineBlocked())
 			} else if time.Since(stuckSince) > 120*time.Second {
 				// not an oracle: the machinery cannot decide a blocked Parse
 				c12CurMu.Lock()
@@ -708,6 +741,12 @@ func c12Shard(t *testing.T, shard, of int, outPath string) {
 			fmt.Printf("INFRA-ERROR shard %d cannot write its report: %v\n", shard, err)
 			os.Exit(2)
 		}
+	}
+	onBlocked = func(where, input, state string) {
+		rep.vio("nontermination:blocked-forever", fmt.Sprintf("Parse is parked in state [%s] and has made no step for 20 s on %d bytes: %s", state, len(input), strconv.QuoteToASCII(clip(input, 200))), where, -1, input)
+		rep.Cut = true
+		write()
+		os.Exit(0)
 	}
 	startWatchdog(func(where, input string, ticks int64) {
 		rep.vio("nontermination:tick-cap", fmt.Sprintf("Parse still running after %d ticks on %d bytes: %s", ticks, len(input), strconv.QuoteToASCII(clip(input, 200))), where, -1, input)
@@ -757,6 +796,10 @@ func TestC12(t *testing.T) {
 		return
 	}
 	run := ev.New("C12", "exploration")
+	onBlocked = func(where, input, state string) {
+		run.Violation("nontermination:blocked-forever", fmt.Sprintf("Parse is parked in state [%s] and has made no step for 20 s on %d bytes (%s): %s", state, len(input), where, strconv.QuoteToASCII(clip(input, 200))), map[string]any{"family": where, "input": clip(input, 4096)})
+		os.Exit(1)
+	}
 	startWatchdog(func(where, input string, ticks int64) {
 		run.Violation("nontermination:tick-cap", fmt.Sprintf("Parse still running after %d ticks on %d bytes (%s): %s", ticks, len(input), where, strconv.QuoteToASCII(clip(input, 200))), map[string]any{"family": where, "input": clip(input, 4096)})
 		os.Exit(1)
@@ -954,6 +997,51 @@ func TestC12(t *testing.T) {
 	for _, n := range total.Evals {
 		evals += int(n)
 	}
+	// reported errors must stay valid after Parse has returned: every ordered pair (a, b) of erroneous
+	// documents - parse a, render its errors, parse b, render a's errors again: same rendering, and
+	// the positions still lie inside a (an error value that points into state shared with later
+	// parses would now describe b)
+	outlive := 0
+	{
+		docs := []string{
+			"class", "class A", "class A implements", "class A implements Namespace {", "class A implements Namespace { related: { r: Nope[] } }",
+			"class A implements Namespace {\n  related: {\n    r: A[]\n  }\n  permits = {\n    p: (ctx) => this.related.zz.includes(ctx.subject),\n  }\n}",
+			"\n\n\n\nclass B implements Namespace { permits = { p: (ctx) => ( } }", "/* unterminated", "\"unterminated string", "class A implements Namespace {}\n\n\n\n\n\n\n\n\n\n\n\n)",
+			"import { Namespace } from \"x\"\nclass A implements Namespace { related: { a: SubjectSet<A, \"nope\">[] } }", "@",
+		}
+		render := func(errs []*schema.ParseError) string {
+			var sb strings.Builder
+			for _, e := range errs {
+				a := e.ToAPI()
+				fmt.Fprintf(&sb, "%d:%d-%d:%d %s | %s\n", a.Start.Line, a.Start.Col, a.End.Line, a.End.Col, a.Message, e.Error())
+			}
+			return sb.String()
+		}
+		for _, a := range docs {
+			for _, b := range docs {
+				outlive++
+				_, ea := schema.Parse(a)
+				r1 := render(ea)
+				schema.Parse(b)
+				r2 := render(ea)
+				lines := strings.Count(a, "\n") + 1
+				bad := ""
+				if r1 != r2 {
+					bad = fmt.Sprintf("the errors of document a render differently after another document was parsed: first %q then %q", clip(r1, 300), clip(r2, 300))
+				}
+				for _, e := range ea {
+					if p := e.ToAPI(); p.Start.Line < 1 || p.End.Line > lines+1 || p.Start.Line > p.End.Line {
+						bad = fmt.Sprintf("after another document was parsed an error of document a has position %d:%d-%d:%d outside its %d lines", p.Start.Line, p.Start.Col, p.End.Line, p.End.Col, lines)
+					}
+				}
+				if bad != "" {
+					run.Violation("errors-do-not-outlive-parse", bad+"; a="+strconv.QuoteToASCII(clip(a, 120))+" b="+strconv.QuoteToASCII(clip(b, 120)), map[string]any{"a": a, "b": b})
+					break
+				}
+			}
+		}
+	}
+	evals += outlive
 	run.Assume(
 		"ticks count function entries and loop-body starts of package internal/schema only; work hidden inside library calls (fmt.Sprintf(\"%q\", rest-of-input) in the lexer's error path, strings.Split in Error()) is not counted",
 		"the linear bound is judged for Parse itself; the cost of rendering the errors (ToAPI/ToProto walk the input once per error) is reported as an observation (endpoint_render_doubling_ratio), not judged, because the statement asks linear time of parsing",
@@ -963,29 +1051,30 @@ func TestC12(t *testing.T) {
 		"under VERIF_MUTANT the mutated file replaces the instrumented copy and contributes no ticks (bounds can only get looser)",
 	)
 	run.Finish(map[string]any{
-		"evaluations":         evals,
-		"distinct_nontrivial": int(total.DistinctNT),
+		"error_lifetime_pairs": outlive,
+		"evaluations":          evals,
+		"distinct_nontrivial":  int(total.DistinctNT),
 		"rule": "index->input bijections: every byte string of length <= 2 and every string of length <= L over a 25-byte alphabet (every delimiter, both quotes, / * newline, a letter, a digit, the two bytes of U+00E9 which are each invalid UTF-8 on their own), each in 5 parser contexts; every sequence of <= T of 41 token spellings (22 fixed tokens, identifiers incl. the words the parser looks for, strings, comments, unterminated string/comment, an illegal character) under 3 separators in the contexts; every single-token delete/duplicate/replace-by-each-spelling edit of the corpus documents; 28 geometric families. " +
 			"distinct_nontrivial is counted conservatively: only blank-separated token sequences (pairwise distinct texts, since no spelling contains a blank and the context prefixes differ) for which the parser produced at least one error or one namespace",
-		"alphabet_max_len":       map[bool]int{false: 4, true: 5}[ev.Thorough()],
-		"token_max_len":          map[bool]int{false: 4, true: 5}[ev.Thorough()],
-		"token_spellings":        len(c12Tokens),
-		"contexts":               c12Contexts,
-		"family_sizes":           famSizes,
-		"evaluations_by_family":  total.Evals,
-		"nontrivial_all":         int(total.Nontrivial),
-		"accepted_inputs":        int(total.Accepted),
-		"errors_rendered":        int(total.Errors),
-		"handler_comparisons":    int(total.Handler),
-		"ticks_total":            total.Ticks,
-		"shards":                 reports,
-		"calibration":            map[string]any{"c_ticks_per_byte": tickC, "c0": tickC0, "observed_max_ticks_per_byte_len_ge_8": total.MaxPerByte, "observed_at": total.MaxPerByteIn, "observed_max_ticks_len_le_2": total.MaxSmall, "max_bound_utilisation": total.MaxUtil, "max_bound_utilisation_at": total.MaxUtilIn},
-		"geo_max_n":              1 << maxExp,
-		"geo_doubling_ratio":     famRatio,
-		"geo_ticks":              famTicks,
+		"alphabet_max_len":               map[bool]int{false: 4, true: 5}[ev.Thorough()],
+		"token_max_len":                  map[bool]int{false: 4, true: 5}[ev.Thorough()],
+		"token_spellings":                len(c12Tokens),
+		"contexts":                       c12Contexts,
+		"family_sizes":                   famSizes,
+		"evaluations_by_family":          total.Evals,
+		"nontrivial_all":                 int(total.Nontrivial),
+		"accepted_inputs":                int(total.Accepted),
+		"errors_rendered":                int(total.Errors),
+		"handler_comparisons":            int(total.Handler),
+		"ticks_total":                    total.Ticks,
+		"shards":                         reports,
+		"calibration":                    map[string]any{"c_ticks_per_byte": tickC, "c0": tickC0, "observed_max_ticks_per_byte_len_ge_8": total.MaxPerByte, "observed_at": total.MaxPerByteIn, "observed_max_ticks_len_le_2": total.MaxSmall, "max_bound_utilisation": total.MaxUtil, "max_bound_utilisation_at": total.MaxUtilIn},
+		"geo_max_n":                      1 << maxExp,
+		"geo_doubling_ratio":             famRatio,
+		"geo_ticks":                      famTicks,
 		"endpoint_render_doubling_ratio": renderRatio,
-		"violations_by_signature": sigs,
-		"frontier":               total.Frontier,
-		"exhaustive":             !total.Cut,
+		"violations_by_signature":        sigs,
+		"frontier":                       total.Frontier,
+		"exhaustive":                     !total.Cut,
 	})
 }
